@@ -185,7 +185,12 @@ def run(pid, tier, seed):
     executed = R.execute(bdir, scns, work, f"b{seed}")
     more, next_id = derive(pid, tier, rnd, executed, next_id + 1000)
     executed2 = R.execute(bdir, more, work, f"d{seed}") if more else []
-    everything = executed + executed2
+    executed3 = []
+    if pid == "C08":
+        # two sinks in two directories, each on its own thread, compressing at the same moment
+        twins = [R.Twin(5000 + i, rnd, tier != "quick" and i % 4 == 0) for i in range(6 if tier == "quick" else 60)]
+        executed3 = R.execute_twins(bdir, twins, work, f"t{seed}")
+    everything = executed + executed2 + executed3
     accepted, failures, viol = validate(pid, everything, work, f"v{seed}", seed)
 
     nt = sum(1 for (s, _, info) in everything if nontrivial(pid, s, info))
